@@ -103,7 +103,8 @@ func (h *Harness) Hung(entry string) bool {
 	return false
 }
 
-func (h *Harness) markHung(entry string) {
+// MarkHung records that entry hangs (see Hung).
+func (h *Harness) MarkHung(entry string) {
 	if h.dir != "" {
 		os.WriteFile(filepath.Join(h.dir, "hung-"+safe(entry)), []byte("1"), 0o644) //nolint:errcheck
 	}
@@ -137,7 +138,7 @@ func (h *Harness) watchdog() {
 		default:
 			a.k.Inconclusive("no-return-slow:" + a.entry)
 		}
-		h.markHung(a.entry)
+		h.MarkHung(a.entry)
 		h.c.Flush()
 		os.Exit(3)
 	}
